@@ -10,6 +10,30 @@ Each job is one test binary invocation pattern:
 """
 
 PROPS = {
+    "C19": {
+        "level": "exploration",
+        "jobs": [
+            {"run": "^TestC19", "checks": {"quick": 150, "thorough": 1500}, "shards": {"quick": 1, "thorough": 16}},
+        ],
+        "assumptions": [
+            "time.Since readings are monotonic; scheduling delays only widen the [before,after] intervals, which can silence the oracle but never raise an alarm",
+        ],
+    },
+    "C20": {
+        "level": "exploration",
+        "jobs": [
+            {"run": "^TestC20Prod", "pkg": "./prod", "tags": "verif", "stage": 0,
+             "checks": {"quick": 20000, "thorough": 2000000}, "shards": {"quick": 1, "thorough": 1}},
+            {"run": "^TestC20(Conversions|WindowSafety)", "stage": 1, "rapid": False,
+             "checks": {"quick": 0, "thorough": 0}, "shards": {"quick": 1, "thorough": 1}},
+            {"run": "^TestC20AcceptanceNoWrap", "stage": 1,
+             "checks": {"quick": 4000, "thorough": 20000}, "shards": {"quick": 1, "thorough": 16}},
+        ],
+        "assumptions": [
+            "the production rotation period is read from the production build of /repo (tags: verif only) and handed to the main-build job",
+            "the rotation trigger and acceptance half-width are measured on the test build; the code that implements them is not build-tagged",
+        ],
+    },
     "C18": {
         "level": "exploration",
         "jobs": [
@@ -23,6 +47,16 @@ PROPS = {
 
 # Texts for MANIFEST.json.
 META = {
+    "C19": {
+        "technique": "property-based testing over generated concurrent arrival schedules, oracle by interval arithmetic on per-call timestamps",
+        "text": "Generated (limit, window, goroutines, pattern, pace) schedules are executed with real goroutines against glow.RateLimiter; each call's monotonic [before,after] interval is recorded and a violation is reported only when it is certain for every placement of the true instants inside the intervals (over-admission within one window, or rejection with fewer than limit possible admissions in the preceding window). Exploration only.",
+        "note": "Trusts Go's monotonic clock. Under load the oracle gets weaker (wider intervals), never wrong. The judge itself has a self-check with synthetic logs.",
+    },
+    "C20": {
+        "technique": "exhaustive boundary enumeration plus property-based testing against an int64 reference, in both the production and the test build",
+        "text": "Conversions are checked at every 5-minute boundary up to the 32-bit no-overflow bound (exhaustive, both builds) and at random times; production genesis and clock are checked in a build without the test tag; acceptance at uint32-extreme (now, slot) pairs is compared with the int64 predicate on a live server; the rotation trigger and acceptance half-width are measured on the live server and combined with the production rotation period in T+P+1+W<4032.",
+        "note": "The window-safety inequality uses the measured trigger and half-width of the test build (same source lines in both builds) and the production period constant; clock values above the uint32 range are out of scope.",
+    },
     "C18": {
         "technique": "stateful property-based testing (rapid state machine) against a reference model",
         "text": "Generated Printf/ExpireLogs/Dump histories over a grid of configurations are executed on glow.EventLogger and on an independently written model; contents, timestamps count, byte bound, eviction order and dump order are compared after every step, and any panic is a failure. Exploration: no claim beyond the histories generated.",
